@@ -131,5 +131,15 @@ func specs() []*spec {
 			Model:          []string{"PinTracker RPC service (recording)", "recording datastore under dsstate (observes every applied write and snapshot restore in order)", "Consensus RPC service shim delegating to the real Consensus (leader redirect)"},
 			Assumptions:    []string{"disk model is process kill: every completed write survives, nothing is torn inside a BoltDB transaction", "a failed or timed-out call may or may not have committed (both legal)", "residual scheduling nondeterminism of the heavy stack: exact-trace replay >= 90% (DESIGN §4), oracles are schedule independent"},
 		},
+		{
+			ID: "C02", Harness: "crdtsim", Level: "exploration",
+			Batch: 20, QuickSecs: 45, ThoroughSecs: 900, PlanTimeoutS: 60,
+			DetSamples: 10, DetThreshold: 0.9,
+			RequiredProbes: []string{"observations", "queue_full", "bursts", "local_order_checked", "convergence_checked", "tracker_handoffs_checked", "datastore_write_failed", "partition", "untrusted_publisher_checked"},
+			Rule:           "plan = 1-4 real CRDT replicas (batching disabled | size-triggered 1-8 | age-triggered 50 ms-5 s, queue 1-64, rebroadcast 1-30 s, trust-all | explicit lists | one untrusted replica, single-writer or contended CIDs) + 8-100 steps: LogPin/LogUnpin, bursts of 2-10 operations in one instant mixing pin and unpin of the same CID (same batch window, queue overflow), partitions, heals, resets, latency skews, datastore write failures placed in the middle of a batch (skip k writes, fail n), Trust/Distrust; then everything is healed and left quiet for 2 x rebroadcast + 30 s. Non-trivial = >=1 operation and >=1 fault fired; distinct = distinct canonical trace digest.",
+			Real:           []string{"consensus/crdt (Consensus: LogPin/LogUnpin, batchWorker, hooks, topic validator, Trust/Distrust)", "state/dsstate (plain and batching)", "go-ds-crdt", "ipfs-lite + bitswap", "go-libp2p-pubsub gossipsub (signed, strict verification)", "go-libp2p-kad-dht dual DHT", "gorpc, libp2p basic host on mocknet"},
+			Model:          []string{"PinTracker and PeerMonitor RPC services (recording)", "fault-injecting in-memory datastore"},
+			Assumptions:    []string{"which value wins for concurrent writes to one CID is not prescribed, only that mutually trusting replicas agree", "after an injected datastore failure an accepted operation may be delayed, not lost once everything is healed and quiet"},
+		},
 	}
 }
